@@ -51,7 +51,9 @@ def run(v, tier, seed):
     def explore(sockets, iters, ntraces):
         rep = W("ex%d.ndjson" % int(sockets)); tr = W("trace%d.ndjson" % int(sockets))
         rc, out, err = vlib.run([th, "explore", str(iters), str(seed), "1" if sockets else "0", rep, tr, str(ntraces)], timeout=(1200 if tier == "quick" else 3400))
-        if rc != 0: raise vlib.MachineryError("th explore failed rc=%s: %s %s" % (rc, out[-500:], err[-1500:]))
+        if rc != 0:
+            vlib.harness_failed(v, rc, out, err, "th explore (sockets=%s, seed %d)" % (sockets, seed), "crash%d" % int(sockets))
+            return [{"summary": True, "executions": 0, "yields": 0, "events": 0, "traces_written": 0, "trace_lines": 0, "distinct_plans": 0}], True, None, None, None, []
         rows = vlib.read_ndjson(rep)
         r = vlib.tlc("ThreadTrace", "Trace_%s.cfg" % ("sock" if sockets else "wc"), "ThreadQueue", workers=1, timeout=1800, env={"TRACE": tr}, keep_out=True)
         accepted = (r.violated == "NotAccepted")
@@ -89,7 +91,7 @@ def run(v, tier, seed):
             elif not accepted:
                 v.drift += 1
                 vlib.log("DRIFT property=C11 recorded trace (sockets=%s) is not a behaviour of ThreadImpl: first unexplained line %s in %s" % (s, maxline, tr))
-    if tot["explore"] == 0: raise vlib.MachineryError("nothing explored")
+    if tot["explore"] == 0 and not v.violations: raise vlib.MachineryError("nothing explored")
     cov = {"states": tot["states"], "transitions": tot["transitions"], "traces_validated_against_impl": tot["traces"],
            "random_executions": tot["explore"], "scheduling_decisions": tot["yields"], "events_checked": tot["events"],
            "trace_lines_validated_by_tlc": tot["trace_lines"],
